@@ -145,16 +145,37 @@ def scan_roles(P):
         node = fi.node if hasattr(fi, 'node') else fi
         wh = next(n for n in ast.walk(node) if isinstance(n, ast.While))
         t = wh.test
-        if isinstance(t, ast.Compare) and isinstance(t.left, ast.Name) and len(t.ops) == 1 and isinstance(t.ops[0], ast.Lt):
-            roles['index'] = t.left.id
-            ln = next(c for c in ast.walk(t.comparators[0]) if isinstance(c, ast.Call) and getattr(c.func, 'id', None) == 'len')
-            if isinstance(ln.args[0], ast.Name):
-                roles['operands'] = ln.args[0].id
+        # `<index> < len(<operands>) - 1`, `<index> + 1 < len(<operands>)`, ...: the list is the argument of len(), the index
+        # is the other name of the test
+        ln = next(c for c in ast.walk(t) if isinstance(c, ast.Call) and getattr(c.func, 'id', None) == 'len')
+        if isinstance(ln.args[0], ast.Name):
+            roles['operands'] = ln.args[0].id
+        others = [n.id for n in ast.walk(t) if isinstance(n, ast.Name) and n.id not in ('len', roles['operands'])]
+        if others:
+            roles['index'] = others[0]
+
+        def selects(v, plus_one):
+            """v is `<operands>[<index>]` (plus_one False) or `<operands>[<index> + 1]` (plus_one True)"""
+            if not (isinstance(v, ast.Subscript) and isinstance(v.value, ast.Name) and v.value.id == roles['operands']):
+                return False
+            i = v.slice
+            if not plus_one:
+                return isinstance(i, ast.Name) and i.id == roles['index']
+            return isinstance(i, ast.BinOp) and isinstance(i.op, ast.Add) and any(
+                isinstance(x, ast.Name) and x.id == roles['index'] for x in (i.left, i.right))
         for st in wh.body:
-            if isinstance(st, ast.Assign) and isinstance(st.targets[0], ast.Tuple) and len(st.targets[0].elts) == 2 \
-                    and all(isinstance(e, ast.Name) for e in st.targets[0].elts):
-                roles['left'], roles['right'] = (e.id for e in st.targets[0].elts)
-                break
+            if not isinstance(st, ast.Assign):
+                continue
+            tg, v = st.targets[0], st.value
+            if isinstance(tg, ast.Tuple) and isinstance(v, ast.Tuple) and len(tg.elts) == 2 == len(v.elts):
+                pairs = list(zip(tg.elts, v.elts))
+            else:
+                pairs = [(tg, v)]
+            for name, val in pairs:
+                if isinstance(name, ast.Name) and selects(val, False):
+                    roles['left'] = name.id
+                if isinstance(name, ast.Name) and selects(val, True):
+                    roles['right'] = name.id
         for n in ast.walk(wh):
             if isinstance(n, ast.Assign) and isinstance(n.value, ast.Call) and isinstance(n.value.func, ast.Attribute) \
                     and n.value.func.attr == 'apply' and len(n.value.args) == 2 and isinstance(n.targets[0], ast.Name):
